@@ -11,7 +11,7 @@ from . import rules_select as S
 from . import rules_switch as W
 
 RULES = {
-    "R-KC": A.rule_KC, "R-VA": A.rule_VA, "R-XA": A.rule_XA, "R-OA": A.rule_OA, "R-WI": A.rule_WI,
+    "R-KC": A.rule_KC, "R-VA": A.rule_VA, "R-VO": A.rule_VO, "R-XA": A.rule_XA, "R-OA": A.rule_OA, "R-WI": A.rule_WI,
     "R-EV": A.rule_EV, "R-EG": A.rule_EG, "R-SL": A.rule_SL,
     "R-FP": C.rule_FP, "R-CP": C.rule_CP, "R-MC": C.rule_MC, "R-CE": C.rule_CE,
     "R-OS": C.rule_OS, "R-RK": C.rule_RK,
@@ -22,10 +22,10 @@ RULES = {
     "R-HO": P.rule_HO, "R-HF": P.rule_HF, "R-PI": P.rule_PI,
     "R-RE": R.rule_RE, "R-NR": R.rule_NR, "R-DF": R.rule_DF, "R-HI": R.rule_HI,
     "R-EX": R.rule_EX, "R-LS": R.rule_LS, "R-CW": R.rule_CW, "R-TI": R.rule_TI,
-    "R-SO": S.rule_SO, "R-OP": S.rule_OP, "R-EO": S.rule_EO, "R-RG": S.rule_RG,
+    "R-SO": S.rule_SO, "R-OP": S.rule_OP, "R-EO": S.rule_EO, "R-RG": S.rule_RG, "R-ON": S.rule_ON,
     "R-ID": S.rule_ID, "R-EH": S.rule_EH, "R-CH": S.rule_CH, "R-CD": S.rule_CD,
     "R-VP": W.rule_VP, "R-SH": W.rule_SH, "R-DH": W.rule_DH, "R-L1": W.rule_L1,
-    "R-WR": W.rule_WR, "R-RQ": W.rule_RQ, "R-HD": W.rule_HD, "R-MF": W.rule_MF, "R-IS": W.rule_IS, "R-PK": W.rule_PK,
+    "R-WR": W.rule_WR, "R-RQ": W.rule_RQ, "R-HD": W.rule_HD, "R-MF": W.rule_MF, "R-IS": W.rule_IS, "R-PK": W.rule_PK, "R-AI": W.rule_AI, "R-OH": W.rule_OH,
     "R-PL": W.rule_PL, "R-PF": W.rule_PF, "R-GA": W.rule_GA, "R-GS": W.rule_GS, "R-SK": W.rule_SK,
 }
 
@@ -44,7 +44,7 @@ def _p(rules, explanation, undecided, filters=None, floors=None, extra_assumptio
 
 
 PROPS = {
-    "C01": _p(["R-KC", "R-FP", "R-CP", "R-MC", "R-DC", "R-OA", "R-RK", "R-OS", "R-PO", "R-MX", "R-OP", "R-GS", "R-WI", "R-IS", "R-SO"],
+    "C01": _p(["R-KC", "R-FP", "R-CP", "R-MC", "R-DC", "R-OA", "R-RK", "R-OS", "R-PO", "R-MX", "R-OP", "R-GS", "R-WI", "R-IS", "R-SO", "R-AI"],
               "Decides the key-set mechanism behind cache transparency, not values: every child that any evaluate() path of any of the "
               "node classes consults is keyed on the same path of keys() (through constructed wrapper terms); the fingerprint reads "
               "nothing but sorted keyed pairs; Cached uses one (evaluatable, options, cache) triple for exists/get/set/keys and stores "
@@ -65,7 +65,7 @@ PROPS = {
               "the number of body executions for concrete DAGs, sharing inside one evaluation, behaviour of over-wide key sets",
               filters={"R-PO": ["WithOptions"], "R-EO": ["Computation", "CallbackEffect", "ChainedEffect"], "R-OA": ["WithOptions", "Cached", "Dataset"],
                        "R-MC": ["MemoryCache"], "R-CW": ["Dataset.overload"]}),
-    "C03": _p(["R-PO", "R-FP", "R-KC", "R-DK", "R-RK", "R-MF", "R-WI", "R-OP", "R-SO", "R-OA"],
+    "C03": _p(["R-PO", "R-FP", "R-KC", "R-DK", "R-RK", "R-MF", "R-WI", "R-OP", "R-SO", "R-OA", "R-AI"],
               "Decides: every component of every keys() result is a child's keys, an empty set, a literal key guarded by "
               "dotted_key_exists, or a filtered subset (WithOptions filter checked as a propositional formula on all 8 assignments); "
               "the fingerprint is a deterministic function of the sorted keyed pairs (no hash/id/set-order/environment dependence); "
@@ -83,14 +83,15 @@ PROPS = {
               "the values returned for particular dictionaries; list-index and prefix-key semantics inside confectioner",
               filters={"R-CC": ["Option(", "Namespace(", "_Auto("], "R-PU": ["labrea.option", "labrea.template"], "R-KC": ["labrea.option.Option:"],
                        "R-IS": ["labrea.option.", "labrea.template."], "R-TK": ["Template.evaluate"]}),
-    "C05": _p(["R-SO", "R-OP", "R-SL", "R-EO", "R-MX", "R-CD"],
+    "C05": _p(["R-SO", "R-OP", "R-SL", "R-EO", "R-MX", "R-CD", "R-DC"],
               "Decides only the selection/order skeleton: switch indexes the table by the dispatch value, default exactly on dispatch "
               "failure or miss, SwitchError without default; case-when returns the result paired with the first condition that holds; "
               "coalesce returns at the first member that validates and evaluates; collections and the Map product iterate in stored "
               "order from one mapping and pre-set each combination as dotted option keys; Apply/Bind/FunctionApplication apply the function "
-              "to the evaluated parts; the combinator API (call, >>, apply, bind) is not overridden by a concrete class.",
+              "to the evaluated parts; the combinator API (call, >>, apply, bind) is not overridden by a concrete class; a dataset nests "
+              "default options > pre-set options > cache > calculation, so what the cache keys on is what the body is evaluated under.",
               "value equality with a reference interpreter for arbitrary expression trees (most of the property)",
-              filters={"R-MX": ["Map._iter", "WithOptions.evaluate"], "R-CD": ["Switch", "Coalesce", "CaseWhen", "user callable"]}),
+              filters={"R-MX": ["Map._iter", "WithOptions.evaluate"], "R-CD": ["Switch", "Coalesce", "CaseWhen", "user callable"], "R-DC": ["default-options > pre-set options"]}),
     "C06": _p(["R-CL", "R-SL", "R-AB", "R-EO", "R-EV", "R-SO"],
               "Decides: no evaluation op is reachable from construction/decoration/registration code (whole-program reachability "
               "over resolved callees); unselected switch/case/coalesce branches never receive an op; the default is touched only when "
@@ -102,10 +103,11 @@ PROPS = {
               "Decides: an implementation registers nothing before all rejections are decided; the overload switch is rebuilt from "
               "the live table on every use; the dispatch is keyed on every successful-dispatch path; the callback is applied outside "
               "the switch; derivatives share overloads and cache by reference; every interface member receives the interface's "
-              "dispatch; the overload table is replaced, never mutated.",
+              "dispatch; the overload table is replaced, never mutated; the cache sits inside both option wrappers, so a value stored under one "
+              "(default-supplied) dispatch value is keyed apart from another's.",
               "which implementation a given dictionary selects; cross-member consistency of values",
               filters={"R-KC": ["Switch", "Overloaded", "_DependsOn", "Dataset"], "R-CC": ["Dataset(", "Overloaded("], "R-SO": ["Switch"],
-                       "R-DC": ["callback", "delegates"], "R-CD": ["Switch"], "R-LS": ["Overloaded", "_LOCKS"]}),
+                       "R-DC": ["callback", "delegates", "default-options > pre-set options"], "R-CD": ["Switch"], "R-LS": ["Overloaded", "_LOCKS"]}),
     "C08": _p(["R-MX", "R-OA", "R-DC", "R-CC", "R-PU", "R-PO", "R-IS"],
               "Decides: WithOptions mixes the pre-set dictionary as the winning ingredient exactly when forced; all four ops see the "
               "mixed dictionary; dataset decorator options end in the same wrappers in the right nesting; with_options / "
@@ -119,26 +121,31 @@ PROPS = {
               "inspect every container kind whose embedded references resolve() follows; KeyError translations are chained.",
               "the substituted text",
               filters={"R-KC": ["Template", "Option"], "R-CH": ["Template", "Option"], "R-GS": ["labrea.template", "labrea.option"]}),
-    "C10": _p(["R-VA", "R-KC", "R-OA", "R-CP", "R-EV", "R-SL", "R-OP", "R-SH", "R-WI", "R-MF"],
+    "C10": _p(["R-VA", "R-KC", "R-OA", "R-CP", "R-EV", "R-SL", "R-OP", "R-SH", "R-WI", "R-MF", "R-VO", "R-RK"],
               "Decides: for every node class, every evaluate path's children are covered by one validate path; the same children are "
               "keyed; the same options form is passed; Cached.validate skips only on exists; inspection evaluates selectors only; "
               "unselected branches are not validated; a child evaluated per element is validated per element; dataset-class "
-              "validate/keys/instantiation enumerate the same members.",
+              "validate/keys/instantiation enumerate the same members; conversely validate consults a child only in situations in which some "
+              "evaluate path does (a flag honoured by evaluate but not by validate is reported); Option.keys follows templated values into "
+              "every container kind that evaluation resolves.",
               "agreement for a particular dictionary when it hinges on values",
               filters={"R-CP": ["validate"], "R-OP": [":iterates"], "R-SH": ["labrea.cache."], "R-WI": [":validate:", ":keys:"], "R-MF": ["same member source", "one member enumeration"]}),
-    "C11": _p(["R-XA", "R-EG", "R-OA", "R-EV", "R-TK", "R-OP", "R-WI", "R-SO", "R-SL", "R-AB", "R-RK"],
+    "C11": _p(["R-XA", "R-EG", "R-OA", "R-EV", "R-TK", "R-OP", "R-WI", "R-SO", "R-SL", "R-AB", "R-RK", "R-VO", "R-PO"],
               "Decides: every child keyed or validated is explained, path by path for equal selections; every evaluate/validate "
               "reached from an explain method lies inside a try that catches EvaluationError and raises "
               "InsufficientInformationError from it or falls back statically; explain follows the same selection as validate/keys "
-              "(coalesce, switch), decides presence like keys (not by the value), and covers per-element children.",
+              "(coalesce, switch), decides presence like keys (not by the value), and covers per-element children; explain consults a child only "
+              "where evaluate may; the keys WithOptions hides from explain are exactly those its pre-set dictionary supplies (dotted lookup).",
               "the iterative fill-until-valid behaviour on concrete dictionaries",
-              filters={"R-TK": ["explain"], "R-OP": [":iterates"], "R-WI": [":explain:"], "R-SO": ["Coalesce"], "R-SL": [":explain:"], "R-AB": ["explain"], "R-RK": ["explain"]}),
-    "C12": _p(["R-EH", "R-CH", "R-CD", "R-KN", "R-CP", "R-MC", "R-WR", "R-DC", "R-GS", "R-HI", "R-EX", "R-AB"],
+              filters={"R-TK": ["explain"], "R-OP": [":iterates"], "R-WI": [":explain:"], "R-SO": ["Coalesce"], "R-SL": [":explain:"], "R-AB": ["explain"], "R-RK": ["explain", "every recognised kind"], "R-VO": [":explain:"], "R-PO": ["WithOptions"]}),
+    "C12": _p(["R-EH", "R-CH", "R-CD", "R-KN", "R-CP", "R-MC", "R-WR", "R-DC", "R-GS", "R-HI", "R-EX", "R-AB", "R-OH"],
               "Decides: the default evaluate handler wraps every exception into EvaluationError(source = this object) chained with "
               "`from`, re-raising its own; all raises inside handlers are chained; only documented fall-through points catch "
               "EvaluationError and nothing else catches Exception; the only path into the memo dictionary is CacheSetRequest built in "
               "Cached.evaluate from a successful inner evaluation; a failed resolve() of a provided value is reported, not treated as "
-              "'not provided'; the context managers that swap handlers restore the previous runtime on every exit.",
+              "'not provided'; the context managers that swap handlers restore the previous runtime on every exit; no module-level state and no "
+              "mutated default argument carries anything from one evaluation to the next; no __repr__ (error messages embed them) orders "
+              "user-supplied aliases.",
               "the concrete cause chain for a given graph; outcomes of later evaluations",
               filters={"R-CP": ["store-after-compute"], "R-MC": ["writes", "constructs", "calls Cache.set"], "R-WR": ["__init_subclass__", "_evaluate_request", "directly"],
                        "R-DC": ["cache layer", "cached"], "R-HI": ["disabled"], "R-AB": ["Option.evaluate"]}),
@@ -165,29 +172,34 @@ PROPS = {
               "built from the overload table is kept on the object (an unlocked check-build-store would race with register).",
               "behaviour under interleavings — no schedule is explored (most of the property)",
               filters={"R-MC": ["key-is-fingerprint"]}),
-    "C16": _p(["R-VP", "R-SH", "R-DH", "R-L1", "R-DC", "R-RQ", "R-HI", "R-SK", "R-CP", "R-GS"],
+    "C16": _p(["R-VP", "R-SH", "R-DH", "R-L1", "R-DC", "R-RQ", "R-HI", "R-SK", "R-CP", "R-GS", "R-AI", "R-VO"],
               "Decides: no data flow from a switch, an effect result or a log result into any returned value; the three cache "
               "handlers test both switch spellings first and delegate to disabled twins that touch no backend; the effects switch "
               "selects between two terms containing the same calculation; exactly one log request per Logged.evaluate path, Logged "
               "inside cached; Cached.evaluate returns only the retrieved, stored or computed value; no hidden module-level state in "
-              "the cache/logging/computation modules.",
+              "the cache/logging/computation modules; no module reads the process environment, a clock or a random source (switches come "
+              "from options and handlers only); a per-object switch is honoured by all sibling operations alike.",
               "observed counts of recomputation and emitted records",
-              filters={"R-DC": ["effects", "calculation", "Logged"], "R-HI": ["handle", "disabled"], "R-CP": ["returns-retrieved-stored-or-computed"], "R-GS": ["labrea.cache", "labrea.logging", "labrea.computation"]}),
-    "C17": _p(["R-CE", "R-CP", "R-MC", "R-SO"],
+              filters={"R-DC": ["effects", "calculation", "Logged"], "R-HI": ["handle", "disabled"], "R-CP": ["returns-retrieved-stored-or-computed"], "R-GS": ["labrea.cache", "labrea.logging", "labrea.computation"], "R-VO": ["Computation", "Dataset", "Logged", "Cached"]}),
+    "C17": _p(["R-CE", "R-CP", "R-MC", "R-SO", "R-OH"],
               "Decides: CacheGetFailure cannot escape Cached.evaluate/validate, Cache.exists or the set/exists handlers through any "
               "resolved call chain; every return of Cached.evaluate is the retrieved, the stored-and-read-back or the freshly "
               "computed value; a failed get falls through to the computation; the set handler falls back to request.value; MemoryCache "
-              "decides a miss by the key; coalesce falls through when a member that validated fails to evaluate.",
+              "decides a miss by the key; coalesce falls through when a member that validated fails to evaluate; a handler that caught a backend "
+              "failure passes it on without doing anything that could fail differently; the reprs embedded in CacheGetFailure's message "
+              "never order user-supplied aliases.",
               "backends that violate the Cache contract in other ways (other exception types)",
               filters={"R-MC": ["MemoryCache.get:a miss"], "R-SO": ["Coalesce"]}),
-    "C18": _p(["R-WR", "R-RQ", "R-HD", "R-MP", "R-L1", "R-HI", "R-MF", "R-EO"],
+    "C18": _p(["R-WR", "R-RQ", "R-HD", "R-MP", "R-L1", "R-HI", "R-MF", "R-EO", "R-ON"],
               "Decides nearly the whole mechanism: the four ABC hooks replace every op by a request-issuing wrapper and the default "
               "handlers call the saved implementation; nothing else calls the saved implementations; every concrete class defines "
               "plain methods; cache/log/type-check sites go through XRequest(...).run(); backends are called only by handlers; every "
               "request type has a default handler; dataset-class members are evaluated through member.evaluate(); no concrete class "
-              "overrides __call__ (which would evaluate without issuing the request).",
+              "overrides __call__ (which would evaluate without issuing the request); a pipeline evaluates all its steps before it returns the "
+              "composed function (no request is issued later, under another runtime); operations are issued on the objects the expression "
+              "was built from, not on copies derived on the way.",
               "third-party subclasses; that a pass-through handler changes no value",
-              filters={"R-MP": ["type request"], "R-HI": ["handle", "disabled"], "R-MF": ["set to its evaluation"], "R-EO": ["__call__", "combinator API"]}),
+              filters={"R-MP": ["type request"], "R-HI": ["handle", "disabled"], "R-MF": ["set to its evaluation"], "R-EO": ["__call__", "combinator API", "before the function is returned"]}),
     "C19": _p(["R-DK", "R-MF", "R-KC", "R-VA", "R-XA", "R-WI", "R-EO"],
               "Decides: relevant options are read with dotted accessors; validate/keys/explain/instantiation enumerate members with "
               "the same source and predicate; __eq__ and __repr__ read the recorded relevant options; members are children for key "
